@@ -3,46 +3,82 @@ package gradtrack
 import "github.com/sahandsafizadeh/qeep/tensor/internal/tensor"
 
 func BackPropagate(t tensor.Tensor) (err error) {
-	return backward(startEdge(t))
-}
-
-func startEdge(t tensor.Tensor) (edge *backwardEdge) {
-	return &backwardEdge{
-		target: t,
-		gradFn: func() (tensor.Tensor, error) {
-			// neutral tensor; same shape, all ones
-			return toOnes(t), nil
-		},
+	root := gradContextOf(t)
+	if !root.tracked {
+		return nil
 	}
+
+	// number of back edges through which each reachable context receives gradient
+	pending := make(map[*GradContext]int)
+	visited := map[*GradContext]bool{root: true}
+	stack := []*GradContext{root}
+
+	for len(stack) > 0 {
+		gctx := stack[len(stack)-1]
+		stack = stack[:len(stack)-1]
+
+		for _, e := range gctx.backEdges {
+			tctx := gradContextOf(e.target)
+			if !tctx.tracked {
+				continue
+			}
+
+			pending[tctx]++
+
+			if !visited[tctx] {
+				visited[tctx] = true
+				stack = append(stack, tctx)
+			}
+		}
+	}
+
+	// marked before seeding so that the neutral tensor is not tracked itself
+	root.bpdirty = true
+
+	// neutral tensor; same shape, all ones
+	err = accumulateGrad(root, toOnes(t))
+	if err != nil {
+		return
+	}
+
+	// back edges of a context are followed once, after its gradient is complete
+	ready := []*GradContext{root}
+
+	for len(ready) > 0 {
+		gctx := ready[len(ready)-1]
+		ready = ready[:len(ready)-1]
+
+		for _, e := range gctx.backEdges {
+			tctx := gradContextOf(e.target)
+			if !tctx.tracked {
+				continue
+			}
+
+			err = backward(e)
+			if err != nil {
+				return
+			}
+
+			pending[tctx]--
+			if pending[tctx] == 0 {
+				ready = append(ready, tctx)
+			}
+		}
+	}
+
+	return nil
 }
 
 func backward(edge *backwardEdge) (err error) {
 	gctx := gradContextOf(edge.target)
-
-	if !gctx.tracked {
-		return nil
-	} else {
-		gctx.bpdirty = true
-	}
+	gctx.bpdirty = true
 
 	grad, err := edge.gradFn()
 	if err != nil {
 		return
 	}
 
-	err = accumulateGrad(gctx, grad)
-	if err != nil {
-		return
-	}
-
-	for _, e := range gctx.backEdges {
-		err = backward(e)
-		if err != nil {
-			return
-		}
-	}
-
-	return nil
+	return accumulateGrad(gctx, grad)
 }
 
 func accumulateGrad(gctx *GradContext, grad tensor.Tensor) (err error) {
